@@ -177,6 +177,17 @@ CHECKS = {
         "per-entry mean, pooled dispersion, pooled correlation, zero stays zero.",
         "Hang bound 30 s then 90 s alone (set-ups take milliseconds). |z| < 7 thresholds; runs are pure "
         "functions of generated seeds."),
+    "C02": (
+        "Hypothesis generation of mass-balanced networks; invariant over every sample of every engine's "
+        "trajectory; own integer null-space oracle",
+        "Exploration. Networks are mass-balanced by construction so that non-trivial conservation laws exist; "
+        "an integer basis of the left null space of the stoichiometric matrix (restricted to species without "
+        "chemostated entries) is computed independently, and for Euler / tau-leap / Gillespie runs sampled at "
+        "every iteration each conserved combination must keep its sample-0 value: exactly for the stochastic "
+        "engines, within 1e-9 of the magnitude for Euler; a pure-diffusion facet checks every species' total "
+        "on grids with all boundary mixes and on (multi)graphs with heterogeneous volumes.",
+        "20-400 iterations per run; stochastic runs receive exact integer molecule numbers (redistribution "
+        "mode, or 'none' with a state given in molecules)."),
 }
 
 NOT_BUILT = "check not built yet in this working session (planned; DESIGN.md section 4)"
